@@ -225,6 +225,13 @@ def run(ctx):
         cal = {lp.blocks[n[1]].term.callee.short.split("::")[-1] for n in sl if n[0] == "CALL" and lp.blocks[n[1]].term.callee}
         ctx.require("sorted" in cal and "enumerate" in cal, "S5", "node_map", "node_map = names.sorted().enumerate()", "node ids are not assigned from sorted names (calls: %s)" % sorted(cal), loc_str(cg[0].span))
     rule_s6(ctx, prog, flows)
+    # S7: "calls under different thread counts return the same ..." -- the only way the thread count enters a result is a
+    # branch on rayon::current_num_threads(); both arms of every such branch must be siblings (same crate functions,
+    # same-provenance arguments, same option tests).  Same engine as C07's P5/P6.
+    from props.c07 import thread_count_arms
+
+    ctx.rule("S7t", "rayon::current_num_threads() flows only into branch conditions")
+    thread_count_arms(ctx, prog, flows, "S7t", "S7")
 
 
 def rule_s6(ctx, prog, flows):
